@@ -3,7 +3,7 @@
 # License: GNU GPL v2 (see LICENSE file for details).
 
 from .node import Node
-from .variable import Menu, MenuItem
+from .variable import Menu, MenuItem, LocalVariable
 from enum import Enum
 from typing import Optional, cast, Dict
 from ..util import vsprintf, get_keys
@@ -374,11 +374,13 @@ class UnaryStringOperation(Node):
                                op_type,
                                operation)
         
-        if operand.name == 'menus':
-            operand.name = '_menuBar.menu'
+        operand_js: str = operand.generate_js(indentation, factory_method)
+        if isinstance(operand, LocalVariable) and operand.name == 'menus':
+            # 'the number of menus': refer to the menu bar in the generated
+            # text only, the AST node keeps its name
+            operand_js = '_menuBar.menu'
         
-        return vsprintf("%s.%s",
-                operand.generate_js(indentation, factory_method), operation)
+        return vsprintf("%s.%s", operand_js, operation)
 #
 # Property accessor operation class.
 # 
